@@ -34,6 +34,17 @@ CHECKS.update({
             "validation, bit-ownership monitor (before ^ after within the step's owned bits) after every later step",
             "masked pairs x windows x intervals/grids; random legal pipelines with repeated refinement/filter/validation", "3 C04"),
 })
+CHECKS.update({
+    "C06": ("reference-model monitor (closed forms of refinement.rst, float64) on the datasets captured around every "
+            "refinement execution: exhaustive cost triples, random volumes/maps, traced pipelines",
+            "complete over {NaN,0..3}^3 x type x method x subpix x position; random and pipeline cases beyond", "3 C06"),
+    "C07": ("reference-model monitor (three-way classification of the statement, rounding convention not imposed) on "
+            "synthetic map pairs and at the validation step hook of traced pipelines, both directions",
+            "maps with integer/quarter/half disparities, NaN/invalid entries, thresholds, intervals, offsets", "3 C07"),
+    "C14": ("reference-model monitor on every filling pass (pass functions found by introspection and wrapped): scan-line "
+            "visibility oracle, value bound, flag moves; whole-step clauses at the class boundary",
+            "every layout class of valid/invalid/8/9 pixels, both methods; traced pipelines with filling", "3 C14"),
+})
 NOTES = {}
 
 def main():
